@@ -190,11 +190,11 @@ def rule_vector_single(ctx):
     conc = []
     for x in f.own_nodes():
         if isinstance(x, (ast.AsyncFor,)):
-            conc.append(f'line {x.lineno} async for')
+            conc.append(f'line {int(round(x.lineno))} async for')
         if isinstance(x, ast.Call):
             nm = norm(x.func)
             if nm.split('.')[-1] in ('spawn', 'gather', 'as_completed', 'create_task', 'ensure_future', 'TaskGroup', 'wait'):
-                conc.append(f'line {x.lineno} {nm}')
+                conc.append(f'line {int(round(x.lineno))} {nm}')
     ctx.check(not conc, 'C18.ALIGN', ctx.key(f, None, 'no concurrent parts'),
               'the vector is not split into concurrently running parts',
               f'the vector is sent as concurrent parts ({"; ".join(conc[:3])}): parts complete in any order, so joined results are '
